@@ -24,7 +24,7 @@ use baa::{BitVecOps, BitVecValue, Value};
 use patronus::expr::*;
 use patronus::mc::{InitValue, ModelCheckResult, Witness, bmc, pdr};
 use patronus::sim::{InitKind, Interpreter, Simulator};
-use patronus::smt::{CVC5, Solver, Z3};
+use patronus::smt::{CVC5, Solver, YICES2, Z3};
 use patronus::system::*;
 use std::collections::{HashMap, HashSet, VecDeque};
 use std::io::{Read, Write};
@@ -208,7 +208,8 @@ fn fam_shift(ctx: &mut Context, rng: &mut Rng) -> TransitionSystem {
 /// two registers updated in lock step; the relation between them is the inductive invariant
 fn fam_lockstep(ctx: &mut Context, rng: &mut Rng) -> TransitionSystem {
     let mut sys = TransitionSystem::new("lockstep".to_string());
-    let w = rng.range(2, 3) as WidthInt;
+    // bit-level cubes express the relational invariant badly: 2 x 3 bits already need 2 000-3 700 queries
+    let w: WidthInt = 2;
     let max = (1u64 << w) - 1;
     let a = ctx.bv_symbol("a", w);
     let b = ctx.bv_symbol("b", w);
@@ -571,6 +572,9 @@ struct Class {
     depth: Option<u32>,
     reached: usize,
     layers: u32,
+    /// number of backward breadth-first layers from the bad states over the state graph (an upper
+    /// estimate of the number of frames PDR needs on a safe system)
+    bwd_layers: u32,
     bad_satisfiable: bool,
     prop_inductive: bool,
     state_bits: u32,
@@ -732,7 +736,40 @@ fn classify(ctx: &Context, sys: &TransitionSystem) -> Option<Class> {
             }
         }
     }
-    Some(Class { depth, reached, layers, bad_satisfiable, prop_inductive, state_bits: sbits, input_bits: ibits })
+    // backward layers over states
+    let mut preds: Vec<Vec<usize>> = vec![vec![]; ns];
+    for s in 0..ns {
+        for i in 0..ni {
+            if !cons[s * ni + i] {
+                continue;
+            }
+            for s2 in expand(&succ[s * ni + i]) {
+                if state_has_cons[s2] {
+                    preds[s2].push(s);
+                }
+            }
+        }
+    }
+    let mut bseen = vec![false; ns];
+    let mut bfront: Vec<usize> = (0..ns).filter(|&s| !p[s]).collect();
+    for &s in bfront.iter() {
+        bseen[s] = true;
+    }
+    let mut bwd_layers = 0u32;
+    while !bfront.is_empty() {
+        bwd_layers += 1;
+        let mut next = vec![];
+        for &s in bfront.iter() {
+            for &q in preds[s].iter() {
+                if !bseen[q] {
+                    bseen[q] = true;
+                    next.push(q);
+                }
+            }
+        }
+        bfront = next;
+    }
+    Some(Class { depth, reached, layers, bwd_layers, bad_satisfiable, prop_inductive, state_bits: sbits, input_bits: ibits })
 }
 
 // ------------------------------------------------------------------------------------------------
@@ -762,6 +799,9 @@ fn configs(tier_runs: &str) -> Vec<RunCfg> {
         let (solver, seeds) = part.split_once(':').expect("runs syntax solver:seed,seed;...");
         for s in seeds.split(',') {
             for gen_on in [true, false] {
+                if solver == "pushpop" && gen_on {
+                    continue; // the profile has no get-unsat-assumptions: generalisation cannot be enabled
+                }
                 out.push(RunCfg { solver: solver.to_string(), gen_on, sseed: s.parse().expect("seed") });
             }
         }
@@ -834,6 +874,12 @@ fn parent(args: &Args) {
             None => "safe-trivial",
         };
         let special = matches!(fam, "noinit" | "freestate" | "conststate" | "initstate" | "initinput");
+        if class.bwd_layers > 13 {
+            // a long backward chain from the bad states means many frames and thousands of queries:
+            // that would test the watchdog against speed, not against hangs
+            stats.inc("rejected_long_backward_chain");
+            continue;
+        }
         if only_family.is_none() {
             let want_small = r.chance(small_share, 100);
             if want_small != (class.state_bits <= full_bits) {
@@ -899,6 +945,7 @@ fn parent(args: &Args) {
         stats.bump("input_bits", &format!("{}", class.input_bits));
         stats.bump("reached_valuations", &bucket(class.reached as u64));
         stats.bump("bfs_layers", &format!("{}", class.layers.min(20)));
+        stats.bump("backward_layers_from_bad", &format!("{}", class.bwd_layers));
         stats.bump("n_bads", &format!("{}", sys.bad_states.len()));
         stats.bump("n_constraints", &format!("{}", sys.constraints.len()));
         let full = class.state_bits <= full_bits;
@@ -1123,6 +1170,8 @@ fn worker(args: &Args) {
     let solver = match args.get("solver").unwrap_or("z3") {
         "z3" => Z3,
         "cvc5" => CVC5,
+        // the push/pop interaction style: patronus' YICES2 profile, z3 behind the name (solver-wrap/yices-smt2)
+        "pushpop" => YICES2,
         other => panic!("unknown solver {other}"),
     };
     let gen_on = args.get("gen").unwrap_or("on") == "on";
